@@ -313,6 +313,9 @@ class GC(FileStorageFormatter):
                             extra_roots.append(dh.back)
                     else:
                         self.reachable[dh.oid] = dh.back
+                        # The revision brought back refers to objects that
+                        # may be unreachable otherwise, too.
+                        extra_roots.append(dh.back)
 
                 pos += dh.recordlen()
 
